@@ -72,7 +72,18 @@ SEQ = {
                 quick=(36, 45), thorough=(600, 60)),
 }
 
-LEVEL = {p: 'model_checking' for p in SEQ}
+CONCUR = {
+    'C05': dict(quick=dict(limit=60, limit3=40), thorough=dict(limit=2000, limit3=600)),
+    'C06': dict(quick=dict(limit=60, limit3=40), thorough=dict(limit=4000, limit3=600)),
+    'C07': dict(quick=dict(limit=60, limit3=40), thorough=dict(limit=4000, limit3=600)),
+}
+CONCUR_MON = {
+    'C05': ('C05_Commits', 'C05_AtMostOne', 'ErrorJustified:prov', 'Escaped'),
+    'C06': ('C06_Commits', 'C06_AtMostOne', 'ErrorJustified:cons', 'Escaped'),
+    'C07': ('C07_Serializable', 'FinalInvariants', 'Escaped'),
+}
+
+LEVEL = {p: 'model_checking' for p in list(SEQ) + list(CONCUR)}
 
 RULES = {
     'C01': 'distinct (allocation-writing request, outcome, inventories, allocations before) whose outcome (204/409) is decided by the inventory / unit / capacity checks',
@@ -225,9 +236,124 @@ def finish(prop, tier, seed, cov, violations, known, t0, assumptions):
     return 1 if violations else 0
 
 
+def concur_reasons(prop, bad):
+    """Which of the failing monitors of a judged schedule concern `prop`."""
+    mons = set(bad['monitors'])
+    if any(st >= 500 for st in bad['statuses']):
+        mons.add('Escaped')
+    if 'ErrorJustified' in mons:
+        # attribute an unjustified error status to the generation kind carried
+        for r, st in zip(bad['reqs'], bad['statuses']):
+            if st < 400:
+                continue
+            if r['op'] in ('inv_put', 'inv_put_all', 'rp_traits_put', 'reshape') or \
+                    (r['op'] == 'agg_put' and r['v'] >= 19):
+                mons.add('ErrorJustified:prov')
+            if r['op'] in ('alloc_put', 'alloc_post', 'reshape') and r['v'] >= 28:
+                mons.add('ErrorJustified:cons')
+    return sorted(m for m in mons if m in CONCUR_MON[prop])
+
+
+def concur_signature(prop, bad, reasons):
+    ops = sorted(r['op'] for r in bad['reqs'])
+    tags = []
+    for r, st in zip(bad['reqs'], bad['statuses']):
+        ents = [r] if r['op'] == 'alloc_put' else r.get('entries', [])
+        for e in ents:
+            if st < 300 and e.get('cgen') == 0 and e['c'] not in bad['db0']['cons']:
+                tags.append('success-with-guessed-generation-0-for-absent-consumer')
+    return {'engine': 'concur', 'ops': '|'.join(ops), 'monitors': ','.join(reasons),
+            'tags': ','.join(sorted(set(tags)))}
+
+
+def run_concur(prop, tier, seed, model=True):
+    import multiprocessing as mp
+    from pv import concur
+    t0 = time.time()
+    models = []
+    if model:
+        models.append(run_tx_model(prop, tier))
+    # size of the corpus: build it once here (cheap, needs the app)
+    ctx = mp.get_context('spawn')
+    with ctx.Pool(1) as pool:
+        ncorp = pool.apply(_corpus_size, (prop, tier, seed))
+    nw = 12 if tier == 'quick' else 14
+    lim = CONCUR[prop][tier]
+    jobs = []
+    for w in range(nw):
+        idx = list(range(w, ncorp, nw))
+        if idx:
+            jobs.append({'kind': prop, 'tier': tier, 'seed': seed * 101 + w,
+                         'corpus_seed': seed, 'indices': idx,
+                         'limit': lim['limit'], 'limit3': lim['limit3']})
+    try:
+        with ctx.Pool(len(jobs)) as pool:
+            results = pool.map(concur.worker, jobs, chunksize=1)
+    except tlc.TLCError as ex:
+        raise Machinery(str(ex))
+    n = sum(r['n'] for r in results)
+    if n == 0:
+        raise Machinery('no schedule was executed')
+    violations, known = [], []
+    outcomes = {}
+    for r in results:
+        for k, v in r['outcomes'].items():
+            outcomes[k] = outcomes.get(k, 0) + v
+        for bad in r['bad']:
+            reasons = concur_reasons(prop, bad)
+            if not reasons:
+                continue
+            sig = concur_signature(prop, bad, reasons)
+            f = findings.lookup(prop, sig)
+            why = '%s under schedule %s of %s: statuses %s' % (
+                ','.join(reasons), bad['schedule'], bad['label'], bad['statuses'])
+            if f:
+                known.append((f, why))
+            else:
+                violations.append((bad, why, sig))
+    races = sum(r['races'] for r in results)
+    cov = {
+        'states': sum(m['states'] for m in models),
+        'transitions': sum(m['transitions'] for m in models),
+        'models': models,
+        'traces_validated_against_impl': n,
+        'evaluations': n,
+        'distinct_nontrivial': len(outcomes),
+        'rule': 'a case is one executed interleaving (at database-transaction granularity) of 2 or 3 real requests; distinct non-trivial = distinct (race, vector of statuses) outcomes observed',
+        'races': races,
+        'races_explored_completely': sum(r['complete'] for r in results),
+        'samples': results[0]['sample'],
+        'outcomes': dict(sorted(outcomes.items())),
+        'exhaustive': False,
+    }
+    if not model:
+        cov.pop('states')
+        cov.pop('transitions')
+    return finish(prop, tier, seed, cov, violations, known, t0, [
+        'each database transaction is atomic and isolated (the scheduler runs one top-level transaction at a time on SQLite); MySQL/PostgreSQL isolation anomalies are outside the property\'s own quantifier',
+        'interleavings are explored depth-first with a partial-order reduction that only skips schedules differing in the order of adjacent read-only transactions; races whose schedule count exceeds the tier limit are cut off (races_explored_completely reports how many were exhausted)',
+        'the oracle is API!Apply (TraceSerial.tla): serial order of the effective successful requests, commit-time generation guards'])
+
+
+def _corpus_size(prop, tier, seed):
+    from pv.app import get_app
+    from pv import trace, scenarios, concur
+    rec = trace.Recorder(get_app())
+    rec.new_history()
+    s = scenarios.S(rec, random.Random(0))
+    concur.base_state(s)
+    return len(concur.corpus(prop, s, tier, random.Random(seed)))
+
+
+def run_tx_model(prop, tier):
+    raise Machinery('Tx model not built yet')
+
+
 def run_check(prop, tier, seed, model=True):
     if prop in SEQ:
         return run_seq(prop, tier, seed, model=model)
+    if prop in CONCUR:
+        return run_concur(prop, tier, seed, model=model)
     raise Machinery('no check registered for %s' % prop)
 
 
